@@ -391,23 +391,3 @@ Proof.
   - apply nas_mac_nia2_is_eia2; assumption.
 Qed.
 
-(* ------------------------------------------------------------------ the MAC is four octets (used by C06/C10) *)
-Lemma nia1_post_len z msg L t : nia1_post z msg L = SOk t -> length t = 4%nat.
-Proof.
-  unfold nia1_post. cbv zeta. destruct (nia1_loop _ _ _ _ _ _); try discriminate.
-  destruct (_ <? _); try discriminate. intro H. inversion H. unfold put_uint32.
-  rewrite app_length, N_to_be_length. reflexivity.
-Qed.
-Lemma cmac_aes128_length key m : key_ok key = true -> length (cmac aes128 key m) = 16%nat.
-Proof. intro Hk. unfold cmac. cbv zeta. apply aes128_length. unfold key_ok in Hk. apply Nat.eqb_eq, Hk. Qed.
-Theorem nas_mac_len4 alg key count bearer dir msg t :
-  nas_mac alg key count bearer dir msg = Some t -> alg = 1 \/ alg = 2 -> length t = 4%nat.
-Proof.
-  intros H Ha. unfold nas_mac in H. destruct (key_ok key) eqn:Hk; [|discriminate].
-  unfold NASMacCalculate in H.
-  destruct (31 <? bearer); [discriminate|]. destruct (1 <? dir); [discriminate|].
-  destruct Ha as [-> | ->]; cbn [AlgIntegrity128NIA0 AlgIntegrity128NIA1 AlgIntegrity128NIA2 N.eqb Pos.eqb] in H.
-  - rewrite NIA1_unfold in H. destruct (nia1_post _ _ _) eqn:Hp; try discriminate.
-    cbn [sres_opt] in H. inversion H; subst. apply (nia1_post_len _ _ _ _ Hp).
-  - unfold NIA2 in H. cbn [snd sres_opt] in H. inversion H. rewrite firstn_length, cmac_aes128_length by exact Hk. reflexivity.
-Qed.
